@@ -4,7 +4,8 @@
    Full statement of the property on the model of the expression fragment:
      forall e, exists fuel, parse_expr fuel (impl e) = Some e
    It is FALSE of the faithful model (C08_impl_roundtrip_refuted); what is proved is the statement
-   outside the decidable class Known_C08 (= a needed parenthesis is omitted = K1, K2, K3 or K6 node). *)
+   outside the decidable class Known_C08 (= a needed parenthesis is omitted = K1 or K3 node).
+   K2 (unary under unary) and K6 (field name before `<`) were in the class until 98d650f / 98c0b1b. *)
 From Coq Require Import List Arith Bool NArith ZArith String.
 Import ListNotations.
 From SV Require Import C08.Syntax C08.Model C08.Proofs C08.ProofsImpl C08.Layout C08.LayoutProofs C08.Lit C08.LitProofs.
@@ -30,7 +31,7 @@ Theorem C08_impl_roundtrip_refuted : exists e, forall fuel, parse_expr fuel (imp
 Proof. exact impl_roundtrip_refuted. Qed.
 
 (* the class is exactly "some node omits a parenthesis the grammar needs", and that is exactly
-   "some node is K1, K2, K3 or K6" (known_C08 is defined as the latter) *)
+   "some node is K1 or K3" (known_C08 is defined as the latter) *)
 Theorem C08_known_class_exact : forall e, safe e = negb (known_C08 e).
 Proof. exact safe_known. Qed.
 
@@ -41,17 +42,21 @@ Theorem C08_K1_witness : known_C08 (Bin Mul xa (Bin Div xb xc)) = true /\ k1 (Bi
   parse_expr 60 (impl (Bin Mul xa (Bin Div xb xc))) = Some (Bin Div (Bin Mul xa xb) xc).
 Proof. exact K1_witness. Qed.
 
-Theorem C08_K2_witness : known_C08 (Un Not (Un Not xa)) = true /\ k2 (Un Not (Un Not xa)) = true /\
-  forall fuel, parse_expr fuel (impl (Un Not (Un Not xa))) = None.
-Proof. exact K2_witness. Qed.
+(* repaired classes, kept as regression statements *)
+Theorem C08_K2_repaired : known_C08 (Un Not (Un Not xa)) = false /\
+  impl (Un Not (Un Not xa)) = [TBang; LP; TBang; TId 0; RP] /\
+  parse_expr 60 (impl (Un Not (Un Not xa))) = Some (Un Not (Un Not xa)).
+Proof. exact K2_repaired. Qed.
 
 Theorem C08_K3_witness : known_C08 (Bin Syntax.Concat (Bin Plus xa xb) xc) = true /\ k3 (Bin Syntax.Concat (Bin Plus xa xb) xc) = true /\
   parse_expr 60 (impl (Bin Syntax.Concat (Bin Plus xa xb) xc)) = Some (Bin Plus xa (Bin Syntax.Concat xb xc)).
 Proof. exact K3_witness. Qed.
 
-Theorem C08_K6_witness : known_C08 (Bin Lt (Field xa 1) xb) = true /\ k6 (Bin Lt (Field xa 1) xb) = true /\
-  forall fuel, parse_expr fuel (impl (Bin Lt (Field xa 1) xb)) = None.
-Proof. exact K6_witness. Qed.
+Theorem C08_K6_repaired : known_C08 (Bin Lt (Field xa 1) xb) = false /\
+  impl (Bin Lt (Field xa 1) xb) = [LP; TId 0; TDot; TFld 1; RP; TOp Lt; TId 1] /\
+  parse_expr 60 (impl (Bin Lt (Field xa 1) xb)) = Some (Bin Lt (Field xa 1) xb) /\
+  parse_expr 60 [TId 0; TDot; TFld 1; TOp Lt; TId 1] = None.
+Proof. exact K6_repaired. Qed.
 
 (* the parser's answer does not depend on the fuel *)
 Theorem C08_parse_fuel_independent : forall f1 f2 ts a b,
@@ -74,14 +79,25 @@ Proof. exact bracket_flexible_wf. Qed.
 Theorem C08_render_total : forall w d, exists s, render_fuel (S (S (size d))) w d = Some s.
 Proof. exact render_fuel_total. Qed.
 
-(* literals *)
-Theorem C08_string_roundtrip : forall s rest, has_quote s = false -> has_nl s = false -> run_bs false s = false ->
-  reparse_str (print_str s) rest = Some (s, rest).
+(* literals: EVERY value a string literal can have (= unescape of an interior the lexer walks over)
+   is printed as the text that was read and is read back unchanged *)
+Theorem C08_string_roundtrip : forall r rest, valid_raw r ->
+  reparse_str (print_str (unescape r)) rest = Some (unescape r, rest).
 Proof. exact str_roundtrip. Qed.
 
-Theorem C08_string_quote_never_roundtrips : forall s rest, has_quote s = true ->
-  reparse_str (print_str s) rest <> Some (s, rest).
-Proof. exact str_quote_not_roundtrip. Qed.
+Theorem C08_string_lexed_roundtrip : forall l r rest rest',
+  lex_str (QUOTE :: l) = Some (r, rest) ->
+  valid_raw r /\ reparse_str (print_str (unescape r)) rest' = Some (unescape r, rest').
+Proof. exact str_lexed_roundtrip. Qed.
+
+Theorem C08_string_print_parse_text : forall r, valid_raw r -> print_str (unescape r) = QUOTE :: r ++ [QUOTE].
+Proof. exact str_print_parse_text. Qed.
+
+Theorem C08_K4_repaired :
+  reparse_str (print_str [97; 34; 98]%N) [] = Some ([97; 34; 98]%N, []) /\
+  print_str [97; 34; 98]%N = [34; 97; 92; 34; 98; 34]%N /\
+  reparse_str (print_str_pinned [97; 34; 98]%N) [] = Some ([97]%N, [98; 34]%N).
+Proof. exact K4_repaired. Qed.
 
 Theorem C08_int_print_parse : forall n, parse_int (print_int n) = Some n.
 Proof. exact int_print_parse. Qed.
@@ -89,17 +105,21 @@ Proof. exact int_print_parse. Qed.
 Theorem C08_int_literal_value : forall p n, (0 <= n <= MAX)%Z -> lit_value (gate p n) = Some n.
 Proof. exact int_roundtrip_nonneg. Qed.
 
-Theorem C08_int_text_preserved_outside_K5 : forall p v t, (0 <= v)%Z -> known_C08_int p v = false -> gate p v = t ->
+Theorem C08_int_min_literal : lit_value (gate PMinus (- MIN)%Z) = Some MIN /\ print_int MIN = "-2147483648"%string.
+Proof. exact int_roundtrip_min. Qed.
+
+(* no exclusion any more: an accepted literal has the value of its text *)
+Theorem C08_int_text_preserved : forall p v t, (0 <= v)%Z -> gate p v = t ->
   match t with
   | IErr => True
-  | ITok v' => v' = v /\ lit_value t = Some v
-  | IMerged => v = (- MIN)%Z /\ lit_value t = Some MIN
+  | ITok v' => v' = v /\ (v <= MAX)%Z /\ lit_value t = Some v
+  | IMerged => v = (- MIN)%Z /\ p = PMinus /\ lit_value t = Some MIN
   end.
 Proof. exact int_text_preserved. Qed.
 
-Theorem C08_K5_witness : gate POther 2147483648 = ITok 2147483648 /\ lit_value (gate POther 2147483648) = Some 0%Z /\
-  print_int 0 = "0"%string /\ print_int 2147483648 = "2147483648"%string /\ known_C08_int POther 2147483648 = true.
-Proof. exact K5_witness. Qed.
+Theorem C08_K5_repaired : gate POther 2147483648 = IErr /\ gate PNone 2147483648 = IErr /\ gate PMinus 2147483648 = IMerged /\
+  gate_pinned POther 2147483648 = ITok 2147483648 /\ lit_value (gate_pinned POther 2147483648) = Some 0%Z.
+Proof. exact K5_repaired. Qed.
 
 (* ---- non-vacuity *)
 Example C08_nonvacuous_expr :
@@ -119,9 +139,9 @@ Print Assumptions C08_impl_roundtrip_refuted.
 Print Assumptions C08_known_class_exact.
 Print Assumptions C08_agree_prints_reference.
 Print Assumptions C08_K1_witness.
-Print Assumptions C08_K2_witness.
+Print Assumptions C08_K2_repaired.
 Print Assumptions C08_K3_witness.
-Print Assumptions C08_K6_witness.
+Print Assumptions C08_K6_repaired.
 Print Assumptions C08_parse_fuel_independent.
 Print Assumptions C08_layout_preserves_tokens.
 Print Assumptions C08_layout_width_independent.
@@ -129,8 +149,11 @@ Print Assumptions C08_group_wf.
 Print Assumptions C08_bracket_wf.
 Print Assumptions C08_render_total.
 Print Assumptions C08_string_roundtrip.
-Print Assumptions C08_string_quote_never_roundtrips.
+Print Assumptions C08_string_lexed_roundtrip.
+Print Assumptions C08_string_print_parse_text.
+Print Assumptions C08_K4_repaired.
 Print Assumptions C08_int_print_parse.
 Print Assumptions C08_int_literal_value.
-Print Assumptions C08_int_text_preserved_outside_K5.
-Print Assumptions C08_K5_witness.
+Print Assumptions C08_int_min_literal.
+Print Assumptions C08_int_text_preserved.
+Print Assumptions C08_K5_repaired.
